@@ -29,7 +29,8 @@ THEOREMS = ['C02_refsem_deterministic', 'C02_fuel_monotone', 'C02_limit_monotone
             'C02_plus_assoc', 'C02_plus_empty_l', 'C02_plus_empty_r', 'C02_override_wins', 'C02_inherited_field',
             'C02_self_field_is_top_lookup', 'C02_self_is_final', 'C02_rw_array_proj', 'C02_rw_identity', 'C02_rw_local_name',
             'C02_laws_nonvacuous', 'C02_builtin_sim', 'C02_dead_local_core', 'C02_dead_local_irrelevant',
-            'C02_extra_frame_invisible', 'C02_rw_local_name_bare', 'C02_rw_local_name_source']
+            'C02_extra_frame_invisible', 'C02_rw_local_name_bare', 'C02_rw_local_name_source',
+            'C02_depth_shift', 'C02_rw_local_name_full']
 ALLOWED_AXIOMS = set()
 TRANSLATORS = []
 
